@@ -96,3 +96,6 @@ add("C19", "exploration", "bounded-exhaustive enumeration of WHERE atoms and the
 add("C20", "exploration", "bounded-exhaustive enumeration of select lists x aliases, LIMIT values and INSERT INTO sources/targets through the real SQL pipeline",
     "every ordered list of 1-3 distinct columns x every alias subset (with/without WHERE), SELECT * with LIMIT 0..rows+1 (with/without WHERE), INSERT INTO a same-timeframe and a 5Min target for every datetime-string Epoch atom of C19; relational reference (projection, rename, prefix; target = selected rows truncated to the target timeframe, last wins)",
     TB + "; UTC", "seqmc")
+add("C24", "exploration", "bounded-exhaustive enumeration of base-bar write histories with the real aggregation trigger, compared with a recomputation from the stored base bars",
+    "destinations [5Min] and [5Min,15Min]; writes = ordered lists of 1-3 bars over a 6-slot grid spanning three windows (ascending and descending); every history of <=2 writes (thorough: + 3 writes of 1-2 bars); after every write the real SyncWAL loop, dispatcher and trigger run to quiescence (scripted scheduler) and each destination bucket must equal the group-by over the base bars currently stored",
+    TB + "; scripted scheduler; UTC", "seqmc")
